@@ -8,9 +8,11 @@ LEVEL = 'exploration'
 RULE = (
     'Generated call histories on a default bus (history 50: queue limit 50, backlog limit 100) and small-N buses: '
     'bursts of 1-130 dispatches from actor code and from inside a handler (payload-driven fan-out up to 120) with slow '
-    'handlers so that the queue and backlog limits are reached, time advances, awaits. Reference model: every dispatch '
+    'handlers so that the queue and backlog limits are reached, time advances, awaits, and re-dispatch of the very event '
+    'objects whose dispatch was rejected earlier. Reference model: every dispatch '
     'either returned - then the event is delivered exactly once and completes - or raised - then it is not in '
-    'event_history, not among the children of the running handler, has no results, and the event whose handler '
+    'event_history, not among the children of the running handler, has no results, its event_path does not name the bus, '
+    'and the event whose handler '
     'attempted it still completes. Non-trivial = at least one rejection; distinct by canonical JSON.'
 )
 ASSUMPTIONS = ['virtual time', 'rejections are whatever exception dispatch raises (RuntimeError backlog, QueueFull)']
@@ -21,6 +23,8 @@ op = st.one_of(
     st.tuples(st.just('burst'), st.sampled_from([1, 2, 5, 30, 49, 50, 51, 60, 99, 101, 130]), dur, st.sampled_from([0, 0, 1, 3]), st.booleans(), st.just(False), st.none()).map(list),
     st.tuples(st.just('burst'), st.sampled_from([1, 2, 3]), dur, st.sampled_from([40, 49, 51, 60, 99, 101, 120]), st.booleans(), st.just(False), st.none()).map(list),
     st.tuples(st.just('await'), st.integers(0, 200)).map(list),
+    st.tuples(st.just('retry'), st.sampled_from([1, 3, 40])).map(list),
+    st.tuples(st.just('burstnh'), st.sampled_from([1, 30, 51, 101])).map(list),
 )
 sc_default = st.fixed_dictionaries({'N': st.sampled_from([50, 50, 50, 10, 3]), 'maxdepth': st.sampled_from([1, 1, 2]), 'ops': st.lists(op, min_size=1, max_size=5), 'cap': st.just(700)})
 
@@ -33,7 +37,7 @@ def strategy(tier):
     return sc_default
 
 
-MINE = ('C14.a', 'C14.b', 'C14.c', 'C14.d')
+MINE = ('C14.a', 'C14.b', 'C14.c', 'C14.d', 'C14.e')
 
 
 def run_case(sc):
@@ -56,4 +60,6 @@ def run_case(sc):
         cl.append('rejection-from-actor')
     if info['evictions']:
         cl.append('evictions')
+    if info['retried-rejected']:
+        cl.append('rejected-object-dispatched-again')
     return {'viol': viol, 'nontrivial': info['rejected'] > 0, 'classes': cl, 'hang': bool(out.get('hang') or out.get('stalled')), 'log': out['log'][:200]}
